@@ -61,6 +61,10 @@ def gen_triple(rng, tier):
         Z = jit(Y, sizes[2], float(rng.choice([1e-9, 1e-4, 1e-2])))
     else:
         X, Y, Z = (gen.diagram(rng, n, None, scale) for n in sizes)
+    if rng.random() < 0.2:
+        X, Y, Z = gen.specialize(rng, X, scale), gen.specialize(rng, Y, scale), gen.specialize(rng, Z, scale)
+    if rng.random() < 0.2:
+        Y = gen.entangle(rng, X, Y); Z = gen.entangle(rng, Y, Z)
     return X, Y, Z, scale, style
 
 
